@@ -37,7 +37,7 @@ DIMS = {
     'planet': [[1.0, 1.0], [0.5, 0.1], [1.7, 3.0]],
     'rstar': [1.0, 0.3],
     'T': [['iso', 1000.0], ['dec'], ['inc'], ['nonmono'], ['outside']],
-    'abund': [['const', 1e-4], ['array', [1e-3, 1e-6]], ['const', 0.0]],
+    'abund': [['const', 1e-4], ['array', [1e-3, 1e-6]], ['const', 0.0], ['array', [1e-12, 1e-12, 3e-2, 3e-2]]],
     'mode': ['linear', 'exp'],
 }
 # 'abs' first in default so that the default case is non-trivial
@@ -68,6 +68,7 @@ def install(case, scale):
     for mol, t in tabs.items():
         OpacityCache().add_opacity(fx.TinyOp(mol, WN, TG, PG, t, case['mode']))
     CIACache().add_cia(fx.TinyCIA('H2-He', WN, CIA_T, cia))
+    CIACache().add_cia(fx.TinyCIA('H2-H2', WN, CIA_T, cia[::-1, ::-1] * 0.3))
     return tabs, cia
 
 
@@ -75,7 +76,7 @@ def spec_of(case, scale):
     contribs = []
     for c in case['contribs']:
         if c == 'cia':
-            contribs.append(['cia', ['H2-He']])
+            contribs.append(['cia', ['H2-H2', 'H2-He']])
         elif c == 'lee':
             mix = 0.0 if case['mag'] == 'zero' else {'thin': 1e-16, 'tau1': 1e-10, 'mixed': 1e-10, 'sat': 1e-2}[case['mag']]
             contribs.append(['lee', {'lee_mie_mix_ratio': mix * scale, 'lee_mie_radius': 0.05, 'lee_mie_q': 40}])
@@ -117,6 +118,8 @@ def reference(m, case, tabs, cia):
             chi = np.asarray(m.chemistry.get_gas_mix_profile('H2'), float) * \
                 np.asarray(m.chemistry.get_gas_mix_profile('He'), float)
             sig = np.array([fx.cia_ref(cia, CIA_T, T[k]) * chi[k] for k in range(N)])
+            chi2 = np.asarray(m.chemistry.get_gas_mix_profile('H2'), float) ** 2
+            sig = sig + np.array([fx.cia_ref(cia[::-1, ::-1] * 0.3, CIA_T, T[k]) * chi2[k] for k in range(N)])
             taus.append(rt.slant_tau(sig, dens, segs, 2))
         elif nm == 'RayleighContribution':
             sig = np.zeros((N, len(wn)))
@@ -227,7 +230,7 @@ def hist_build(case):
     install(c, 1.0)
     spec = {'kind': 'transmission', 'N': case['N'], 'T': ['iso', 1200.0], 'path': case['path'],
             'gases': [['H2O', ['const', 1e-4]], ['CH4', ['const', 3e-5]]],
-            'contribs': ['abs', ['cia', ['H2-He']], 'ray', ['clouds', 1e3],
+            'contribs': ['abs', ['cia', ['H2-H2', 'H2-He']], 'ray', ['clouds', 1e3],
                          ['flat', {'flat_mix_ratio': 1e-31, 'flat_topP': 3e0, 'flat_bottomP': 2e4}],
                          ['lee', {'lee_mie_mix_ratio': 1e-12, 'lee_mie_radius': 0.05, 'lee_mie_q': 40}]]}
     return fx.build_model(spec)
